@@ -7,6 +7,22 @@ HERE = os.path.dirname(os.path.dirname(os.path.abspath(__file__)))
 
 # property -> (technique, level text, level note, design ref)
 CLAIMED = {
+    "C04": (
+        "exception-escape analysis from the encode entry points, definite-assignment analysis, "
+        "block-local dominance of every value alteration by an odxraise, symbolic normalisation "
+        "of the representability guards (signed range per encoding, both directions, encoded "
+        "units), structural checks of the required/unknown-parameter tests and of non-settable "
+        "parameter kinds, truthiness lint on Optional value types",
+        "Decides the encoder's error discipline on every path: value-dependent raises are the "
+        "library's error type, no local is read unassigned, every truncation/mask/pad/substitute "
+        "is only the non-strict fall-back of a reported EncodeError, the value handed to "
+        "bitstruct.pack is bounded on both sides in encoded units with the correct signed range, "
+        "required/unknown parameters are checked first, non-settable kinds reject supplied "
+        "values, and data and used-bit mask have the same width.",
+        "Not decided: that an accepted value decodes back (C01/C02). Known findings: RESERVED "
+        "parameters drop a supplied value, BIT-MASK drops masked-out bits silently, condensed "
+        "BIT-MASK mask width. Trusted: call resolution by annotations.",
+        "DESIGN.md section 3, C04"),
     "C05": (
         "exception-escape analysis over a class-hierarchy call graph (explicit raise sites plus "
         "an implicit may-raise catalogue, filtered by enclosing handlers, with def-use taint to "
